@@ -1,26 +1,40 @@
 """C08 - any chain of conversions preserves the cue timeline and text; a second pass changes nothing.
 
-Caption sets (sorted, non-overlapping cues of at least one unit of the chain's coarsest resolution, below 23 h, safe
-visible text) are pushed through chains of REAL writers and readers (public API only): all 5x5 ordered pairs and
-sampled chains of length 3-6, two passes.  After every hop the (start, end, text) lists per language are observed.
-Property oracle: Coq ok_chain (request 802): times after pass 1 equal, at the coarsest resolution on the chain, every
-time floored to that resolution (SAMI: final end = final start + 4 s), and pass 2 = pass 1 exactly; text lines (whitespace-normalised) unchanged at every
-hop (Python side).  Correspondence: after every hop the times equal the model's trace (request 800), where a model hop
-prints each timing token with the C02 writer models and parses it with the C01 reader models.
+Caption sets (sorted, non-overlapping cues, below 24 h; visible text incl. adversarial atoms, line-break characters
+inside text nodes, several text nodes per line, style nodes, layouts) are pushed through chains of REAL writers and
+readers (public API only): all 5x5 ordered pairs and sampled chains of length 3-6, two passes.  After every hop the
+(start, end, text) lists of ALL languages are observed.
+Property oracle: Coq ok_chain (request 802): every time after pass 1 differs from the original by less than the coarsest
+resolution on the chain (with SAMI on the chain the final end is not compared), and pass 2 = pass 1 exactly; the visible
+text of every caption, whitespace-normalised as a whole, is unchanged after every hop; no further language appears
+(Python side).  Correspondence: after every hop the times equal the model's trace (request 800) at the resolution
+reached so far, where a model hop prints each timing token with the C02 writer models and parses it with the C01
+reader models; MicroDVD documents of the real writer equal the string-level writer model's (request 803).
+Shapes that the real code does not preserve (cues below the resolution, several languages through single-language
+formats, WebVTT cue split by layout, blank lines inside text nodes) are generated in every run by stream_shapes and
+reported under failure-keyed kinds (known findings); any other deviation there is an ordinary violation.
 """
 import itertools
+import math
 import re
 
 import impl
 from wire import Ok, Err, oracle_batch, oracle1, r_result
 from pycaption import (CaptionSet, CaptionList, Caption, CaptionNode, SRTReader, SRTWriter, WebVTTReader, WebVTTWriter,
                        DFXPReader, DFXPWriter, SAMIReader, SAMIWriter, MicroDVDReader, MicroDVDWriter)
+from pycaption.geometry import Layout, Point, Size, UnitEnum
 
 FMT = ["srt", "vtt", "dfxp", "sami", "mdvd"]
 LANGS = ["en-US", "fr", "de"]
 WORDS = ["hello", "world", "caption", "The", "quick", "brown", "fox", "it's", "100%", "naive", "[music]", "- hi", "42",
          "x", "Ola", "7 up", "yes.", "no?", "(laughs)", "a-b", "one, two", "d'accord", "ok!"]
-HI = 82800 * 10**6 - 1
+DAY = 86400 * 10**6
+SAMI_HI = DAY - 4 * 10**6
+NONINT = [0]
+
+
+def hi_of(chain):
+    return SAMI_HI if 3 in chain else DAY
 
 
 def write_read(f, cs):
@@ -37,38 +51,34 @@ def write_read(f, cs):
     raise ValueError(f)
 
 
-def norm_lines(c):
-    lines, cur = [], []
-    for n in c.nodes:
-        if n.type_ == CaptionNode.BREAK:
-            lines.append("".join(cur))
-            cur = []
-        elif n.type_ == CaptionNode.TEXT:
-            cur.append(n.content or "")
-    lines.append("".join(cur))
-    out = []
-    for l in lines:
-        l = re.sub(r"\s+", " ", l).strip()
-        if l:
-            out.append(l)
-    return out
+def norm_line(l):
+    return re.sub(r"\s+", " ", l).strip()
+
+
+def norm_text(c):
+    """visible text of a caption, whitespace-normalised as a whole (a BREAK node is whitespace)"""
+    return norm_line("".join("\n" if n.type_ == CaptionNode.BREAK else (n.content or "") if n.type_ == CaptionNode.TEXT
+                             else "" for n in c.nodes))
+
+
+def as_int(t):
+    """times need not be integers (statement: same to resolution): a non-integral time is floored and counted"""
+    if isinstance(t, int):
+        return t
+    if isinstance(t, float) and t.is_integer():
+        return int(t)
+    NONINT[0] += 1
+    return math.floor(t)
 
 
 def observe(cs):
-    """{lang: ([[start, end], ...], [lines, ...])}; times must be ints"""
+    """{lang: ([[start, end], ...], [text, ...])} for every language of the set"""
     res = {}
     for lang in cs.get_languages():
         times, texts = [], []
         for c in cs.get_captions(lang):
-            s, e = c.start, c.end
-            if isinstance(s, float) and s.is_integer():
-                s = int(s)
-            if isinstance(e, float) and e.is_integer():
-                e = int(e)
-            if not isinstance(s, int) or not isinstance(e, int):
-                raise TypeError("non-integer time %r %r" % (c.start, c.end))
-            times.append([s, e])
-            texts.append(norm_lines(c))
+            times.append([as_int(c.start), as_int(c.end)])
+            texts.append(norm_text(c))
         res[lang] = (times, texts)
     return res
 
@@ -77,12 +87,16 @@ ATOMS = ["&lt;", "&gt;", "&amp;", "&nbsp;", "&#60;", "&#x3c;", "&amp;lt;", "&amp
          '"', "'", "-->", "a --> b", "<i>", "</i>", "<i>x</i>", "<b>", "<u>t</u>", "</p>", "<p>", "<br/>", "<br>", "</span>",
          "<span>", "<c.x>y</c>", "<v Bob>", "<00:01.000>", "<!--", "]]>", "x<y", "a<b>c", "1 < 2 > 0", "R&D", "42", "50",
          "25", "23.976", "1", "{1}{2}", "{0}{0}", "{", "}", "|", "a|b", "00:00:01,000 --> 00:00:02,000", "NOTE", "STYLE",
-         "WEBVTT", "</tt>", "<sami>", "é", "中", "\U0001F600", "a\xa0b", ";", "x;>", "a;", "#", "\\", "/", "-", "--",
+         "WEBVTT", "</tt>", "<sami>", "\u00e9", "\u4e2d", "\U0001F600", "a\xa0b", ";", "x;>", "a;", "#", "\\", "/", "-", "--",
          "- hi", "[music]", "100%", "it's"]
+# characters that are whitespace for the statement's normalisation and line ends for some parser, INSIDE a text node
+LB_ATOMS = ["a\nb", "x\r\ny", "p\rq", "a\x0bb", "a\x0cb", "a\x1cb", "a\x1db", "a\x1eb", "a\x85b", "a\u2028b", "a\u2029b",
+            "a\tb", "l1\nl2\nl3", "7\n8"]
+LB_CHARS = set("\n\r\x0b\x0c\x1c\x1d\x1e\x85\u2028\u2029")
 
 
-def norm_line(l):
-    return re.sub(r"\s+", " ", l).strip()
+def bump(counter, key, by=1):
+    counter[key] = counter.get(key, 0) + by
 
 
 def gen_text(rng, no_pipe, counter):
@@ -91,14 +105,23 @@ def gen_text(rng, no_pipe, counter):
     lines = []
     for _ in range(rng.choice([1, 1, 1, 2, 2, 3])):
         while True:
-            parts = [rng.choice(ATOMS) if rng.random() < 0.55 else rng.choice(WORDS) for _ in range(rng.randint(1, 4))]
-            l = rng.choice([" ", " ", " ", "  ", ""]).join(parts)
+            parts = []
+            for _ in range(rng.randint(1, 4)):
+                r = rng.random()
+                if r < 0.08:
+                    parts.append(rng.choice(LB_ATOMS))
+                    bump(counter, "text_atoms_with_a_line_break_character")
+                elif r < 0.55:
+                    parts.append(rng.choice(ATOMS))
+                else:
+                    parts.append(rng.choice(WORDS))
+            l = rng.choice([" ", " ", " ", "  ", "", "\t"]).join(parts)
             if rng.random() < 0.15:
                 l = rng.choice([" ", "  ", "\t"]) + l
             if rng.random() < 0.15:
                 l = l + rng.choice([" ", "  "])
             if no_pipe and "|" in l:
-                counter["text_pipe_excluded_for_microdvd"] = counter.get("text_pipe_excluded_for_microdvd", 0) + 1
+                bump(counter, "text_pipe_excluded_for_microdvd")
                 l = l.replace("|", "/")
             if norm_line(l):
                 break
@@ -106,16 +129,20 @@ def gen_text(rng, no_pipe, counter):
     return lines
 
 
+H = 3600 * 10**6
 GRID = [0, 1, 999, 1000, 1001, 39999, 40000, 40001, 999999, 10**6, 8039999, 8040000, 8119999, 8120000, 59999999,
-        60 * 10**6, 3599999999, 3600 * 10**6, 36000 * 10**6 - 1, 5004999, 5005000]
+        60 * 10**6, H - 1, H, 10 * H - 1, 5004999, 5005000, 10 * H, 12 * H - 1, 12 * H, 13 * H, 20 * H + 1, 23 * H,
+        23 * H + 59 * 60 * 10**6, SAMI_HI - 10**7, DAY - 10**7, DAY - 2 * 10**6]
 
 
-def gen_cues(rng, unit, short_ok):
-    """sorted non-overlapping cues. short_ok (no SAMI on the chain): a cue may be shorter than the unit, even inside one
-    unit (it floors to a zero-length cue that must be kept) - neighbours start in different units and, with MicroDVD,
-    no cue lies inside frame 0.  Otherwise every cue is at least one unit long."""
-    n = rng.choice([1, 2, 2, 3, 4, 5])
-    t = rng.choice([0, 0, 1, 999, rng.randrange(10**7), rng.randrange(10**9), rng.randrange(HI // 2)])
+def gen_cues(rng, unit, hi, short_ok):
+    """sorted non-overlapping cues below hi (24 h; 24 h - 4 s with SAMI).  short_ok (no SAMI on the chain): a cue may be
+    shorter than the unit, even inside one unit (it floors to a zero-length cue that must be kept) - neighbours start
+    in different units and, with MicroDVD, no cue lies inside frame 0.  Otherwise every cue is at least one unit long.
+    Mostly 1-5 cues, sometimes 6-120 (two- and three-digit SRT counters)."""
+    n = rng.choice([1, 2, 2, 3, 4, 5]) if rng.random() < 0.955 else rng.choice([6, 9, 10, 11, 12, 13, 30, 60, 120])
+    t = rng.choice([0, 0, 1, 999, rng.randrange(10**7), rng.randrange(10**9), rng.randrange(hi), rng.randrange(hi),
+                    rng.randrange(12 * H, hi), hi - rng.randrange(1, 3 * 10**7)])
     cues = []
     for _ in range(n):
         if rng.random() < 0.4:
@@ -135,7 +162,7 @@ def gen_cues(rng, unit, short_ok):
         e = s + d
         if unit == 40000 and e < 40000:
             s, e = s + 40000, e + 40000          # frame 0 is the recorded finding (separate stream)
-        if e > HI:
+        if e >= hi:
             break
         cues.append((s, e))
         t = e + (0 if rng.random() < 0.35 else rng.choice([1, 999, 1000, unit, 123456, rng.randrange(1, 10**7)]))
@@ -144,7 +171,7 @@ def gen_cues(rng, unit, short_ok):
     return cues
 
 
-def related_cues(rng, first, unit):
+def related_cues(rng, first, unit, hi):
     """cues of a further language built around the first language's times: shared starts / ends, a title cue that starts
     before the first language and ends exactly where its first cue begins, cues in the gaps"""
     pts = sorted({t for c in first for t in c})
@@ -168,7 +195,7 @@ def related_cues(rng, first, unit):
     for (s, e) in out:
         if res and s < res[-1][1]:
             continue
-        if e - s >= unit and e <= HI:
+        if e - s >= unit and e < hi:
             res.append((s, e))
     return res or [(first[0][0], first[0][0] + unit)]
 
@@ -176,6 +203,12 @@ def related_cues(rng, first, unit):
 STYLES = [{"italics": True}, {"bold": True}, {"underline": True}, {"color": "yellow"}, {"font-family": "serif"},
           {"font-size": "12px"}, {"italics": True, "color": "red"}]
 BLANKS = [" ", "\xa0", "  ", "\xa0 "]
+LAYOUTS = [(10, 10), (10, 80), (5, 5), (0, 0), (50, 50), (25, 90)]
+
+
+def layout(k):
+    x, y = LAYOUTS[k]
+    return Layout(origin=Point(Size(x, UnitEnum.PERCENT), Size(y, UnitEnum.PERCENT)))
 
 
 def lines_spec(lines):
@@ -187,10 +220,20 @@ def lines_spec(lines):
     return spec
 
 
-def gen_nodes(rng, no_pipe, counter):
-    """node list of one caption: visible text lines (gen_text) separated by breaks; between two lines possibly EMPTY
-    lines (consecutive breaks) or lines holding only a blank / U+00A0 text node; balanced STYLE node pairs (rendering:
-    italics / bold / underline, and non-rendering: colour / font) at arbitrary positions, also between two breaks"""
+def split_node(rng, content):
+    """cut a text into 2-3 non-empty pieces at arbitrary positions (also inside a word or an entity spelling)"""
+    if len(content) < 2:
+        return [content]
+    cuts = sorted(set(rng.randrange(1, len(content)) for _ in range(rng.choice([1, 1, 2]))))
+    return [content[a:b] for a, b in zip([0] + cuts, cuts + [len(content)])]
+
+
+def gen_nodes(rng, no_pipe, counter, node_layout_ok=True):
+    """node list of one caption: visible text lines (gen_text) separated by breaks; a line may be cut into SEVERAL text
+    nodes (inside words too), with or without a style pair around a piece; between two lines possibly EMPTY lines
+    (consecutive breaks) or lines holding only a blank / U+00A0 text node; balanced STYLE node pairs (rendering:
+    italics / bold / underline, and non-rendering: colour / font) at arbitrary positions, also between two breaks;
+    sometimes a caption-level layout (["L", k] first) or one layout on every node (third field)"""
     lines = gen_text(rng, no_pipe, counter)
     spec = []
     for k, ln in enumerate(lines):
@@ -199,11 +242,24 @@ def gen_nodes(rng, no_pipe, counter):
             while rng.random() < 0.3:
                 if rng.random() < 0.5:
                     spec.append(["t", rng.choice(BLANKS)])
-                    counter["blank_only_text_nodes"] = counter.get("blank_only_text_nodes", 0) + 1
+                    bump(counter, "blank_only_text_nodes")
                 else:
-                    counter["empty_lines_inside_a_caption"] = counter.get("empty_lines_inside_a_caption", 0) + 1
+                    bump(counter, "empty_lines_inside_a_caption")
                 spec.append(["b"])
-        spec.append(["t", ln])
+        if rng.random() < 0.3:
+            pieces = split_node(rng, ln)
+            if len(pieces) > 1:
+                bump(counter, "lines_cut_into_several_text_nodes")
+            wrap = rng.randrange(len(pieces)) if rng.random() < 0.4 else None
+            for i, pc in enumerate(pieces):
+                if i == wrap:
+                    st = rng.choice(STYLES)
+                    spec += [["s", True, st], ["t", pc], ["s", False, st]]
+                    bump(counter, "style_node_pairs")
+                else:
+                    spec.append(["t", pc])
+        else:
+            spec.append(["t", ln])
     for _ in range(rng.choice([0, 0, 0, 1, 1, 2])):
         i = rng.randrange(0, len(spec) + 1)
         j = rng.randrange(i, len(spec) + 1)
@@ -219,20 +275,35 @@ def gen_nodes(rng, no_pipe, counter):
             continue
         st = rng.choice(STYLES)
         spec = spec[:i] + [["s", True, st]] + spec[i:j] + [["s", False, st]] + spec[j:]
-        counter["style_node_pairs"] = counter.get("style_node_pairs", 0) + 1
+        bump(counter, "style_node_pairs")
         if not any(k in st for k in ("italics", "bold", "underline")):
-            counter["style_node_pairs_rendering_no_tag"] = counter.get("style_node_pairs_rendering_no_tag", 0) + 1
+            bump(counter, "style_node_pairs_rendering_no_tag")
+    r = rng.random()
+    if r < 0.12:
+        spec = [["L", rng.randrange(len(LAYOUTS))]] + spec
+        bump(counter, "captions_with_a_caption_level_layout")
+    elif r < 0.2 and not node_layout_ok:
+        bump(counter, "node_layouts_left_out_dfxp_before_vtt_see_shape_stream")
+    elif r < 0.2:
+        k = rng.randrange(len(LAYOUTS))
+        spec = [x + [k] for x in spec]
+        bump(counter, "captions_with_one_layout_on_every_node")
     return spec
 
 
+def node_layout(x):
+    n = {"t": 2, "b": 1, "s": 3}[x[0]]
+    return layout(x[n]) if len(x) > n else None
+
+
 def plain_lines(spec):
-    """the text lines if the caption is just lines separated by single breaks, else None"""
+    """the text lines if the caption is just lines separated by single breaks (no layout), else None"""
     out = []
     expect_text = True
     for x in spec:
-        if expect_text and x[0] == "t" and norm_line(x[1]):
+        if expect_text and x[0] == "t" and len(x) == 2 and norm_line(x[1]):
             out.append(x[1])
-        elif not expect_text and x[0] == "b":
+        elif not expect_text and x[0] == "b" and len(x) == 1:
             pass
         else:
             return None
@@ -249,31 +320,43 @@ def build(langs):
             if spec and isinstance(spec[0], str):
                 spec = lines_spec(spec)
             nodes = []
+            cap_layout = None
             for x in spec:
-                if x[0] == "t":
-                    nodes.append(CaptionNode.create_text(x[1]))
+                if x[0] == "L":
+                    cap_layout = layout(x[1])
+                elif x[0] == "t":
+                    nodes.append(CaptionNode.create_text(x[1], layout_info=node_layout(x)))
                 elif x[0] == "b":
-                    nodes.append(CaptionNode.create_break())
+                    nodes.append(CaptionNode.create_break(layout_info=node_layout(x)))
                 else:
-                    nodes.append(CaptionNode.create_style(bool(x[1]), dict(x[2])))
-            caps.append(Caption(s, e, nodes))
+                    nodes.append(CaptionNode.create_style(bool(x[1]), dict(x[2]), layout_info=node_layout(x)))
+            caps.append(Caption(s, e, nodes, layout_info=cap_layout))
         d[LANGS[li]] = CaptionList(caps)
     return CaptionSet(d)
 
 
-def spec_lines(spec):
-    """visible text of a node spec: per line the text contents, whitespace-normalised, empty lines dropped"""
+def spec_text(spec):
+    """visible text of a node spec, whitespace-normalised as a whole"""
     if spec and isinstance(spec[0], str):
         spec = lines_spec(spec)
-    lines, cur = [], []
+    return norm_line("".join("\n" if x[0] == "b" else x[1] if x[0] == "t" else "" for x in spec))
+
+
+def inline_boundary(spec):
+    """two text nodes on one line (no break between them)"""
+    prev = False
     for x in spec:
-        if x[0] == "b":
-            lines.append("".join(cur))
-            cur = []
-        elif x[0] == "t":
-            cur.append(x[1])
-    lines.append("".join(cur))
-    return [l for l in (norm_line(l) for l in lines) if l]
+        if x[0] == "t":
+            if prev:
+                return True
+            prev = True
+        elif x[0] == "b":
+            prev = False
+    return False
+
+
+def squeeze(s):
+    return re.sub(r"\s+", "", s)
 
 
 def run_chain(chain, cs):
@@ -295,42 +378,58 @@ def run_chain(chain, cs):
 def run(ctx):
     rng = ctx.rng
     res = {"evaluations": 0, "nontrivial": set(), "violations": [], "disagreements": [], "distribution": {},
-           "streams": 2, "notes": [], "samples": []}
+           "streams": 3, "notes": [], "samples": []}
     dist = res["distribution"]
+    NONINT[0] = 0
     jobs = []
     pairs = list(itertools.product(range(5), repeat=2))
-    per_pair = ctx.n(80, 600)
+    per_pair = ctx.n(64, 600)
     for (a, b) in pairs:
         for _ in range(per_pair):
             jobs.append([a, b])
-    for _ in range(ctx.n(700, 10000)):
+    for _ in range(ctx.n(560, 10000)):
         jobs.append([rng.randrange(5) for _ in range(rng.randint(3, 6))])
     for x in range(5):                # order-sensitive 3-hop chains around the WebVTT / SRT pair
         for tail in ([1, 0], [0, 1]):
             for _ in range(ctx.n(8, 120)):
                 jobs.append([x] + tail)
-    n_multi = ctx.n(160, 3000)       # chains that stay within DFXP / SAMI, always with 2-3 interleaved languages
+    n_multi = ctx.n(140, 3000)       # chains that stay within DFXP / SAMI, always with 2-3 interleaved languages
     for _ in range(n_multi):
         jobs.append([rng.choice([2, 3]) for _ in range(rng.randint(1, 5))])
     multi_from = len(jobs) - n_multi
     reqs_t, reqs_e, work = [], [], []
     for jn, chain in enumerate(jobs):
         unit = 40000 if 4 in chain else 1000
+        hi = hi_of(chain)
         multi = all(f in (2, 3) for f in chain) and (rng.random() < 0.5 or jn >= multi_from)
         nl = rng.choice([2, 3]) if multi else 1
         langs = []
         for k in range(nl):
-            cues = gen_cues(rng, unit, 3 not in chain)
+            cues = gen_cues(rng, unit, hi, 3 not in chain)
             if k and rng.random() < 0.6:
-                cues = related_cues(rng, langs[0][0], unit)
-            langs.append((cues, [gen_nodes(rng, 4 in chain, dist) for _ in cues]))
+                cues = related_cues(rng, langs[0][0], unit, hi)
+            nl_ok = not (2 in chain and 1 in chain[chain.index(2):])
+            langs.append((cues, [gen_nodes(rng, 4 in chain, dist, nl_ok) for _ in cues]))
             if any(e - s0 < unit for (s0, e) in cues):
-                dist["sets_with_a_cue_shorter_than_the_unit"] = dist.get("sets_with_a_cue_shorter_than_the_unit", 0) + 1
+                bump(dist, "sets_with_a_cue_shorter_than_the_unit")
             if any(s0 // unit == e // unit for (s0, e) in cues):
-                dist["sets_with_a_cue_inside_one_unit"] = dist.get("sets_with_a_cue_inside_one_unit", 0) + 1
+                bump(dist, "sets_with_a_cue_inside_one_unit")
+            if len(cues) > 5:
+                bump(dist, "languages_with_6_to_120_cues")
+            if cues[-1][1] >= 12 * H:
+                bump(dist, "languages_reaching_beyond_12_h")
+            if cues[-1][1] >= 23 * H:
+                bump(dist, "languages_reaching_beyond_23_h")
         cs = build(langs)
         t1, cs1 = run_chain(chain, cs)
         t2, cs2 = run_chain(chain, cs1) if cs1 is not None else ([], None)
+        extra = extra_languages(t1 + t2, len(langs))
+        if extra:
+            res["violations"].append({
+                "kind": "languages", "chain": [FMT[f] for f in chain], "chain_codes": chain, "lang_index": 0,
+                "input": [[[list(c) for c in cu], tx] for (cu, tx) in langs], "replay": "chain",
+                "what": "chain %s: languages %s appear that the set does not have" % ("->".join(FMT[f] for f in chain),
+                                                                                     extra)})
         for li, (cues, texts) in enumerate(langs):
             work.append((chain, langs, li, cues, texts, t1, t2))
             reqs_t.append((800, [chain, [list(c) for c in cues]]))
@@ -348,7 +447,7 @@ def run(ctx):
         res["evaluations"] += 1
         lens[len(chain)] = lens.get(len(chain), 0) + 1
         if ex[1] != 1:
-            dist["out_of_domain_dropped"] = dist.get("out_of_domain_dropped", 0) + 1
+            bump(dist, "out_of_domain_dropped")
             continue
         res["nontrivial"].add((tuple(chain), tuple(cues)))
         rec = {"chain": [FMT[f] for f in chain], "chain_codes": chain, "lang_index": li,
@@ -356,134 +455,379 @@ def run(ctx):
         bad_text = text_mismatch(t1 + t2, li, texts)
         if ok != 1:
             v = dict(rec)
-            v.update({"kind": "times", "what": "chain %s: times after pass 1 %s / pass 2 %s; the statement demands %s "
-                                               "twice" % ("->".join(rec["chain"]), show(final_times(t1, li, len(chain))),
-                                                          show(final_times(t2, li, len(chain))), ex[0])})
+            kind = "times"
+            f1, f2 = final_times(t1, li, len(chain)), final_times(t2, li, len(chain))
+            if 1 in chain and any(has_layout(sp) for sp in texts) and isinstance(f1, Ok) and isinstance(f2, Ok) \
+                    and len(f1.v) > len(cues) and oracle1(802, [chain, [list(c) for c in cues], Ok(dedupe(f1.v)),
+                                                                Ok(dedupe(f2.v))]) == 1:
+                kind = "vtt-layout-split"
+            bump(dist, "main_stream_" + kind)
+            v.update({"kind": kind, "what": "chain %s on %s: times after pass 1 %s / pass 2 %s; the statement demands "
+                                               "the original times to the chain's resolution (model: %s) twice" % (
+                "->".join(rec["chain"]), cues, show(final_times(t1, li, len(chain))),
+                show(final_times(t2, li, len(chain))), ex[0])})
             res["violations"].append(v)
             continue
         if bad_text is not None:
             v = dict(rec)
-            v.update({"kind": "text", "what": "chain %s: text after hop %d is %s, written %s" % (
-                "->".join(rec["chain"]), bad_text[0], bad_text[1], texts)})
+            kind = text_kind(chain, texts, bad_text)
+            bump(dist, "main_stream_" + kind)
+            v.update({"kind": kind, "what": "chain %s: text of caption %s after hop %d is %r, written %r" % (
+                "->".join(rec["chain"]), bad_text[1], bad_text[0], bad_text[2], bad_text[3])})
             res["violations"].append(v)
-            continue
         # correspondence: every hop of pass 1 against the model trace, at the resolution reached so far (a hop that keeps
         # more precision than the model's is not a failure: counted)
         mt = [r_result(x) for x in tr]
         ot = [hop_times(o, li) for o in t1]
+        if 1 in chain and any(has_layout(sp) for sp in texts):      # WebVTT may write one cue per layout group
+            ot2 = [Ok(dedupe(o.v)) if isinstance(o, Ok) else o for o in ot]
+            if any(isinstance(a, Ok) and a.v != b.v for a, b in zip(ot, ot2)):
+                bump(dist, "chains_with_cues_repeated_per_layout_group_at_some_hop")
+            ot = ot2
         bad = len(mt) != len(ot)
         for k, (a, b) in enumerate(zip(mt, ot)):
             u = 40000 if 4 in chain[:k + 1] else 1000
             if not same(floored(a, u), floored(b, u)):
                 bad = True
             elif not same(a, b):
-                dist["hops_with_other_precision_than_model"] = dist.get("hops_with_other_precision_than_model", 0) + 1
+                bump(dist, "hops_with_other_precision_than_model")
         if bad:
             res["disagreements"].append({"chain": rec["chain"], "cues": cues, "model": [show(x) for x in mt],
                                          "impl": [show(x) for x in ot]})
     dist.setdefault("hops_with_other_precision_than_model", 0)
-    stream_short(ctx, res)
+    dist["non_integer_times_observed_and_floored"] = NONINT[0]
+    stream_shapes(ctx, res)
     # the string-level MicroDVD writer model (request 803) against the real writer, on the generated single-language sets
-    mw = [(langs[0][0], [plain_lines(sp) for sp in langs[0][1]]) for (chain, langs, li, cues, texts, t1, t2) in work
-          if len(langs) == 1 and 4 in chain and all(plain_lines(sp) is not None for sp in langs[0][1])
-          and all(l == l.strip() for sp in langs[0][1] for l in plain_lines(sp))][:400]
-    docs = oracle_batch([(803, [[c[0], c[1], tx] for c, tx in zip(cu, txs)]) for (cu, txs) in mw]) if mw else []
+    # whose captions are lines separated by single breaks (a difference is a correspondence disagreement)
+    mw, skipped = [], 0
+    for (chain, langs, li, cues, texts, t1, t2) in work:
+        if len(langs) != 1 or 4 not in chain:
+            continue
+        pl = [mdvd_lines(sp) for sp in langs[0][1]]
+        if any(x is None for x in pl):
+            skipped += 1
+            continue
+        mw.append((langs[0][0], pl, langs[0][1]))
+    mw = mw[:ctx.n(600, 6000)]
+    docs = []
+    for i in range(0, len(mw), 200):
+        docs += oracle_batch([(803, [[c[0], c[1], tx] for c, tx in zip(cu, txs)]) for (cu, txs, sp) in mw[i:i + 200]])
     ndiff = 0
-    for (cu, txs), d in zip(mw, docs):
-        real = impl.call(lambda: MicroDVDWriter().write(build([(cu, txs)])))
+    for (cu, txs, sp), d in zip(mw, docs):
+        real = impl.call(lambda: MicroDVDWriter().write(build([(cu, sp)])))
         if not (isinstance(real, Ok) and real.v == d):
             ndiff += 1
+            res["disagreements"].append({"what": "MicroDVD writer model document differs from the real writer's",
+                                         "cues": cu, "texts": txs, "model": d, "impl": show(real)})
     dist["mdvd_documents_compared_with_writer_model"] = len(mw)
     dist["mdvd_documents_differing_from_writer_model"] = ndiff
+    dist["mdvd_documents_not_compared_lf_or_cr_inside_a_text_node"] = skipped
     dist["chain_length_histogram"] = lens
     dist["pairs"] = len(pairs)
     dist["sets_per_pair"] = per_pair
     res["rule"] = ("all 25 ordered format pairs x %d caption sets, the ten 3-hop chains X->vtt->srt / X->srt->vtt, sampled "
                    "chains of length 3-6 and chains within DFXP/SAMI with 2-3 interleaved languages, two passes; sets of "
-                   "1-5 sorted non-overlapping cues; with SAMI on the chain every cue is at least one unit long (1 ms, "
-                   "40 ms with MicroDVD), otherwise cues may be shorter than the unit or lie inside one unit (e.g. "
-                   "{100}{100}: kept as a zero-length cue) while neighbours start in different units and no cue lies "
-                   "inside MicroDVD frame 0; starts on ms / frame boundaries +-1, below 23 h. Captions are node lists: "
-                   "1-3 visible text lines mixing plain words with adversarial atoms (literal entity spellings &lt; &gt; "
-                   "&amp; &nbsp; &#60; &amp;lt;, bare & < >, quotes, '-->', markup look-alikes, digits-only lines, braces, "
-                   "timing-line look-alikes, leading/trailing/multiple blanks, non-ASCII); between two lines possibly "
-                   "EMPTY lines (consecutive breaks) or lines holding only a blank / U+00A0 text node; balanced STYLE node "
-                   "pairs, rendering (i/b/u) and non-rendering (colour, font), at arbitrary positions incl. between two "
-                   "breaks; '|' is replaced (counted) exactly when the chain has a MicroDVD hop. Compared: visible text "
-                   "per line, whitespace-normalised, empty lines dropped. Non-trivial: every distinct (chain, cue list) "
-                   "in the domain." % per_pair)
+                   "1-5 (4.5%%: 6-120) sorted non-overlapping cues anywhere below 24 h (with SAMI: below 24 h - 4 s); with "
+                   "SAMI on the chain every cue is at least one unit long (1 ms, 40 ms with MicroDVD), otherwise cues may "
+                   "be shorter than the unit or lie inside one unit (kept as a zero-length cue) while neighbours start in "
+                   "different units and no cue lies inside MicroDVD frame 0; starts on ms / frame / hour boundaries +-1. "
+                   "Captions are node lists: 1-3 visible text lines mixing plain words with adversarial atoms (entity "
+                   "spellings, bare & < >, quotes, '-->', markup look-alikes, digits-only lines, braces, timing-line "
+                   "look-alikes, leading/trailing/multiple blanks, inner tabs, non-ASCII) and atoms holding a line-break "
+                   "character (LF CR CRLF VT FF FS GS RS NEL LS PS); a line may be cut into several text nodes (inside "
+                   "words), with or without a style pair; EMPTY lines, blank / U+00A0-only text nodes; balanced STYLE "
+                   "pairs anywhere; a caption-level layout or one layout on every node; '|' is replaced (counted) exactly "
+                   "when the chain has a MicroDVD hop. One language unless the chain stays within DFXP/SAMI (else: "
+                   "shape stream). Compared: times by Coq ok_chain; visible text of the whole caption, "
+                   "whitespace-normalised; no further language. stream_shapes: the shapes the real code does not "
+                   "preserve, generated every run, reported under failure-keyed kinds. Non-trivial: every distinct "
+                   "(chain, cue list) in the domain." % per_pair)
     res["clauses"] = {
-        "theorem": ["projection algebra: pi_F idempotent, two hops = coarser resolution (order irrelevant), every chain = "
-                    "closed form (coarsest unit, SAMI 4 s tail), chain twice = once",
+        "theorem": ["projection algebra (spec-internal): pi_F idempotent, two hops = coarser resolution, every chain = "
+                    "closed form, chain twice = once",
                     "token level: writer model then reader model = floor to the format's unit (SRT, WebVTT, DFXP, MicroDVD)",
                     "cue-list level incl. SRT merge loop and SAMI sync rule + back-filling: a model hop is pi_F on the "
-                    "domain; a chain of model hops is the closed form and satisfies the oracle",
-                    "string level, MicroDVD: reader model o writer model (whole documents incl. text lines) = frames "
+                    "domain; a chain of model hops is the closed form; a SECOND chain of model hops returns the same "
+                    "list (C08_chain_model_second_pass); the two model passes satisfy the oracle "
+                    "(C08_chain_model_meets_oracle)",
+                    "string level, MicroDVD only: reader model o writer model (whole documents incl. text lines) = frames "
                     "floored, text unchanged (C08_mdvd_roundtrip_string)"],
-        "correspondence_only": ["several languages inside one DFXP / SAMI document do not disturb each other (dedicated "
-                                "stream with interleaved languages; the set-level theorem converts each language on its own)",
-                                "text survives every hop and the second pass (whitespace-normalised lines, adversarial "
-                                "texts; the projection on text is the identity up to whitespace; only '|' is excluded, "
-                                "for MicroDVD hops)",
-                                "document level of every real writer / reader pair (the model hop is at token / cue-list "
-                                "level)", "several languages through DFXP / SAMI"]}
+        "correspondence_only": ["text survives every hop and the second pass (no theorem mentions text except the MicroDVD "
+                                "one)", "document level of SRT, WebVTT, DFXP, SAMI writer / reader pairs",
+                                "several languages inside one DFXP / SAMI document do not disturb each other (the set-level "
+                                "theorem converts each language on its own BY DEFINITION)",
+                                "the second pass of the real code"]}
     res["samples"] = [{"chain": [FMT[f] for f in work[0][0]], "cues": work[0][3], "text": work[0][4]}]
     return res
 
 
-def short_case(rng):
-    k = rng.randrange(3)
+def extra_languages(trace, nl):
+    out = set()
+    for o in trace:
+        if isinstance(o, Ok):
+            for l, (times, _) in o.v.items():
+                if l not in LANGS[:nl] and times:
+                    out.add(l)
+    return sorted(out)
+
+
+def edge_linebreak(spec):
+    """a text node that begins or ends with LF / CR and has another node next to it on that side"""
+    for i, x in enumerate(spec):
+        if x[0] == "t" and x[1]:
+            if x[1][0] in "\r\n" and i > 0 and spec[i - 1][0] != "b":
+                return True
+            if x[1][-1] in "\r\n" and i + 1 < len(spec) and spec[i + 1][0] != "b":
+                return True
+    return False
+
+
+def text_kind(chain, texts, bad):
+    """failure-keyed kinds; both need: the observed text equals the written one once ALL whitespace is removed.
+    text-sami-blank-at-node-boundary: SAMIWriter puts a blank after every text node / span end (pinned by the library's
+    fixtures): SAMI on the chain, the caption has two text nodes on one line.
+    text-linebreak-at-text-node-edge: DFXP / SAMI round trips drop a LF / CR at the edge of a text node next to a span:
+    DFXP or SAMI on the chain, the caption has such a node, the observed text is the shorter one."""
+    hop, ci, got, want = bad
+    if ci is None or not isinstance(got, str) or squeeze(got) != squeeze(want) or isinstance(texts[ci][0], str):
+        return "text"
+    spec = [x for x in texts[ci] if x[0] != "L"]
+    if (2 in chain or 3 in chain) and edge_linebreak(spec) and len(got) < len(want):
+        return "text-linebreak-at-text-node-edge"
+    if 3 in chain and inline_boundary(spec):
+        return "text-sami-blank-at-node-boundary"
+    return "text"
+
+
+def has_layout(spec):
+    return any(x[0] == "L" or len(x) > {"t": 2, "b": 1, "s": 3}[x[0]] for x in spec if not isinstance(x, str))
+
+
+def dedupe(times):
+    out = []
+    for t in times:
+        if not out or out[-1] != t:
+            out.append(t)
+    return out
+
+
+def mdvd_lines(spec):
+    """the caption's lines as the MicroDVD writer sees them (text nodes of a line concatenated, style nodes and layout
+    ignored), or None if a text node holds LF / CR (written as a further line break)"""
+    lines, cur = [], []
+    for x in spec:
+        if x[0] == "b":
+            lines.append("".join(cur))
+            cur = []
+        elif x[0] == "t":
+            if "\n" in x[1] or "\r" in x[1]:
+                return None
+            cur.append(x[1])
+    lines.append("".join(cur))
+    return lines
+
+
+# ---- shapes outside what the real code preserves: generated in every run, kinds keyed on the failure -------------------
+
+BLANK_LINE_SPECS = [[["t", "a\n\nb"]], [["t", "a\r\rb"]], [["t", "a\n"], ["b"], ["t", "b"]], [["t", "a"], ["b"], ["t", "\nb"]],
+                    [["t", "a\n"], ["t", "\nb"]], [["t", "a\r\n\r\nb"]], [["t", "one\n\ntwo"], ["b"], ["t", "three"]]]
+
+
+def shape_case(rng):
+    """(shape, chain, langs)"""
+    k = rng.randrange(10)
+    w = lambda i: [["t", "w%d" % i]]
     if k == 0:      # a cue inside MicroDVD frame 0 is written {0}{0}text = the frame-rate header spelling
         e = rng.randrange(2, 40000)
         s = rng.randrange(0, e)
         a = 40000 + rng.randrange(0, 10**6)
         cues = [(s, e), (a, a + 40000 + rng.randrange(10**6))]
-        return "mdvd-frame0", [4] + [rng.randrange(5) for _ in range(rng.randint(0, 2))], cues
-    if k == 1:      # two cues inside one millisecond collapse to equal spans; the SRT writer merges them
+        first = [["t", rng.choice(["42", "25", "23.976", "1", "30"])]] if rng.random() < 0.4 else w(0)
+        return "mdvd-frame0", [4] + [rng.randrange(5) for _ in range(rng.randint(0, 2))], [(cues, [first, w(1)])]
+    if k == 1:      # two cues inside one millisecond / one frame collapse to equal spans; the SRT writer merges them
+        if rng.random() < 0.5:
+            base = rng.randrange(1, 10**6) * 1000
+            cues = [(base + 100, base + 400), (base + 500, base + 900), (base + 5000, base + 9000)]
+            chain = [rng.choice([1, 2]), 0]
+        else:
+            base = rng.randrange(1, 10**5) * 40000
+            cues = [(base + 100, base + 10000), (base + 20000, base + 39000), (base + 10**6, base + 2 * 10**6)]
+            chain = [4, 0]
+        return "merged-by-srt", chain, [(cues, [w(0), w(1), w(2)])]
+    if k == 2:      # a cue shorter than 1 ms through SAMI: blank sync at its own start ms
         base = rng.randrange(1, 10**6) * 1000
-        cues = [(base + 100, base + 400), (base + 500, base + 900), (base + 5000, base + 9000)]
-        return "merged-by-srt", [rng.choice([1, 2]), 0], cues
-    base = rng.randrange(1, 10**6) * 1000   # a cue shorter than 1 ms through SAMI: blank sync at its own start ms
-    cues = [(base + 100, base + 400), (base + 2000, base + 3000)]
-    return "sami-end", [3], cues
+        cues = [(base + 100, base + 400), (base + 2000, base + 3000)]
+        return "sami-end", [3], [(cues, [w(0), w(1)])]
+    if k == 3:      # 1 ms <= cue < one frame with SAMI and MicroDVD on the chain: zero-length cue reaches the SAMI writer
+        base = rng.randrange(1, 10**5) * 40000
+        d = rng.choice([1000, 10000, 39000, rng.randrange(1000, 39001)])
+        o = rng.randrange(0, 40000 - d)
+        cues = [(base + o, base + o + d), (base + 100000, base + 200000 + rng.randrange(10**6))]
+        chain = rng.choice([[3, 4], [4, 3], [3, 4, rng.randrange(5)], [2, 4, 3]])
+        return "sami-mdvd-short", chain, [(cues, [w(0), w(1)])]
+    if k in (4, 5):  # several languages through a format that carries one
+        f = rng.choice([0, 1, 4])
+        unit = 40000 if f == 4 else 1000
+        pre = rng.choice([[], [], [2], [3]])
+        hi = hi_of(pre + [f])
+        first = gen_cues(rng, unit, hi, False)[:4]
+        langs = [(first, [[["t", "e%d" % i]] for i in range(len(first))])]
+        for li in range(1, rng.choice([2, 2, 3])):
+            cu = related_cues(rng, first, unit, hi) if rng.random() < 0.6 else gen_cues(rng, unit, hi, False)[:4]
+            langs.append((cu, [[["t", "%s%d" % ("fd"[li - 1], i)]] for i in range(len(cu))]))
+        return "multi-language", pre + [f], langs
+    if k == 6:      # nodes of one caption with different layouts: WebVTTWriter writes one cue per layout group
+        n = rng.choice([2, 2, 3])
+        ks = rng.sample(range(len(LAYOUTS)), n)
+        spec = []
+        for i, lk in enumerate(ks):
+            if i:
+                spec.append(["b", ks[i - 1]])
+            spec.append(["t", "g%d" % i, lk])
+        base = rng.randrange(1, 10**6) * 1000
+        cues = [(base, base + 10**6), (base + 2 * 10**6, base + 3 * 10**6)]
+        return "vtt-layout-split", [1] + rng.choice([[], [1], [2]]), [(cues, [spec, w(1)])]
+    base = rng.randrange(1, 10**6) * 1000
+    cues = [(base, base + 10**6), (base + 2 * 10**6, base + 3 * 10**6)]
+    if k == 7:      # a text node (with its neighbours) that puts an empty line into the cue: written verbatim
+        spec = rng.choice(BLANK_LINE_SPECS)
+        f = 0 if any("\r\r" in x[1] for x in spec if x[0] == "t") and rng.random() < 0.5 else 1
+        return "blank-line-in-text-node", [f], [(cues, [spec, w(1)])]
+    if k == 8:      # one layout on every node through DFXP and then WebVTT: the DFXP reader gives text and style nodes
+        lk = rng.randrange(len(LAYOUTS))       # different layouts, the WebVTT writer cuts the cue between them
+        st = rng.choice(STYLES)
+        spec = rng.choice([
+            [["t", "un", lk], ["s", True, st, lk], ["t", "believ", lk], ["s", False, st, lk], ["t", "able", lk]],
+            [["t", "one", lk], ["b", lk], ["s", True, st, lk], ["t", "two", lk], ["s", False, st, lk]],
+            [["t", "<s", lk], ["s", True, st, lk], ["s", False, st, lk], ["t", "pan>", lk]]])
+        return "vtt-layout-split", [2, 1] + rng.choice([[], [1]]), [(cues, [spec, w(1)])]
+    # LF / CR at the edge of a text node, next to another node
+    lb = rng.choice(["\n", "\r", "\r\n"])
+    st = rng.choice(STYLES)
+    spec = rng.choice([
+        [["t", "p" + lb], ["t", "q"]], [["t", "p"], ["t", lb + "q"]],
+        [["t", "p"], ["s", True, st], ["t", lb + "q"], ["s", False, st]],
+        [["s", True, st], ["t", "p" + lb], ["s", False, st], ["t", "q"]],
+        [["s", True, st], ["t", "p"], ["s", False, st], ["t", lb + "q"]],
+        [["t", "p" + lb], ["s", True, st], ["t", "q"], ["s", False, st]]])
+    return "linebreak-at-node-edge", [rng.randrange(5)] + rng.choice([[], [rng.randrange(5)]]), [(cues, [spec, w(1)])]
 
 
-def run_short(shape, chain, cues):
-    """(deviates, kind, observation)"""
-    texts = [["w%d" % i] for i in range(len(cues))]
-    cs = build([(cues, texts)])
+def near(a, b, u):
+    return abs(a - b) < u
+
+
+def run_shape(shape, chain, langs):
+    """(deviates, kind, observation).  The kind is a known one only if the observation IS that failure (times AND text)"""
+    cs = build(langs)
     t1, cs1 = run_chain(chain, cs)
-    exp = oracle1(801, [chain, [list(c) for c in cues]])[0]
-    fin = final_times(t1, 0, len(chain))
-    if isinstance(fin, Ok) and fin.v == exp and text_mismatch(t1, 0, texts) is None:
-        return False, None, show(fin)
-    kind = "short-cue-unexpected"
-    if shape == "mdvd-frame0" and t1 and isinstance(t1[0], Err) and t1[0].code == 3:
-        kind = "short-cue-mdvd-frame0"
-    elif shape == "merged-by-srt" and isinstance(fin, Ok) and len(fin.v) == len(cues) - 1 and fin.v == [exp[0]] + exp[2:]:
-        kind = "short-cue-merged-by-srt"
-    elif shape == "sami-end" and isinstance(fin, Ok) and len(fin.v) == 2 and fin.v[1] == exp[1] \
-            and fin.v[0] == [exp[0][0], exp[1][0]]:
-        kind = "short-cue-sami-end"
-    return True, kind, show(fin)
+    t2, cs2 = run_chain(chain, cs1) if cs1 is not None else ([], None)
+    n = len(chain)
+    unit = 40000 if 4 in chain else 1000
+    want_t = [[spec_text(sp) for sp in tx] for (cu, tx) in langs]
+    exps = [oracle1(801, [chain, [list(c) for c in cu]])[0] for (cu, tx) in langs]
+    fin1 = [final_times(t1, li, n) for li in range(len(langs))]
+    fin2 = [final_times(t2, li, n) for li in range(len(langs))]
+    oks = [oracle1(802, [chain, [list(c) for c in cu], fin1[li], fin2[li]]) for li, (cu, tx) in enumerate(langs)]
+    txt = [text_mismatch(t1 + t2, li, tx) for li, (cu, tx) in enumerate(langs)]
+    extra = extra_languages(t1 + t2, len(langs))
+    obs = {"pass1": [show(x) for x in t1[-1:]], "pass2": [show(x) for x in t2[-1:]]}
+    if all(o == 1 for o in oks) and all(x is None for x in txt) and not extra:
+        return False, None, obs
+    kind = shape + "-unexpected"
+    cues, texts = langs[0]
+    wt = want_t[0]
+    last1 = t1[-1] if len(t1) == n and isinstance(t1[-1], Ok) else None
+    last2 = t2[-1] if len(t2) == n and isinstance(t2[-1], Ok) else None
+    o1 = last1.v.get(LANGS[0], ([], [])) if last1 else None
+    o2 = last2.v.get(LANGS[0], ([], [])) if last2 else None
+    exp = exps[0]
+    if shape == "mdvd-frame0":
+        if t1 and isinstance(t1[0], Err) and t1[0].code == 3 and not re.fullmatch(r"[0-9.]+", wt[0]):
+            kind = "short-cue-mdvd-frame0"       # {0}{0}w0 is taken for the header and is no number
+        elif re.fullmatch(r"[0-9.]+", wt[0]) and isinstance(t1[0], Ok) and len(t1[0].v.get(LANGS[0], ([], []))[0]) == 1 \
+                and t1[0].v[LANGS[0]][1] == wt[1:]:
+            kind = "short-cue-mdvd-frame0"       # {0}{0}42 is taken for a frame rate: cue gone, the rest re-timed
+    elif shape == "merged-by-srt" and o1 and o2 and o1 == o2:
+        if o1[0] == [exp[0]] + exp[2:] and o1[1] == [wt[0] + " " + wt[1]] + wt[2:]:
+            kind = "short-cue-merged-by-srt"
+    elif shape == "sami-end" and o1 and o2 and o1 == o2:
+        if len(o1[0]) == 2 and o1[0][1][0] == exp[1][0] and o1[0][0] == [exp[0][0], exp[1][0]] and o1[1] == wt:
+            kind = "short-cue-sami-end"
+    elif shape == "sami-mdvd-short" and o1 and o2:
+        good = True
+        dev = False
+        for o in (o1, o2):
+            good = good and len(o[0]) == len(cues) and o[1] == wt
+            if not good:
+                break
+            for i, (c, x) in enumerate(zip(cues, o[0])):
+                good = good and near(c[0], x[0], unit)
+                if i + 1 < len(cues) and not near(c[1], x[1], unit):
+                    dev = True
+                    good = good and c[1] - c[0] < 40000 and x[1] == o[0][i + 1][0]
+        if good and (dev or o1 != o2):
+            kind = "short-cue-sami-zero-length-end"
+    elif shape == "multi-language" and o1 and sorted(l for l in last1.v if last1.v[l][0]) == [LANGS[0]]:
+        # classified on the first pass (a second pass may merge the appended cues further)
+        # everything arrives under the reader's language; a SAMI hop before may have re-ordered the languages
+        f = chain[-1]
+        starts_ok = lambda ts, cs: len(ts) == len(cs) and all(near(t[0], c[0], unit) for t, c in zip(ts, cs))
+        stamp = r"\d\d:\d\d:\d\d,\d\d\d"
+        for perm in itertools.permutations(range(len(langs))):
+            if f == 1:      # only the first language is written
+                cu = langs[perm[0]][0]
+                if oracle1(802, [chain, [list(c) for c in cu], Ok(o1[0]), Ok(o1[0])]) == 1 and o1[1] == want_t[perm[0]]:
+                    kind = "multi-language-vtt-dropped"
+            elif f == 4:    # all languages' cues in one list
+                if starts_ok(o1[0], [c for k in perm for c in langs[k][0]]) and o1[1] == [x for k in perm for x in want_t[k]]:
+                    kind = "multi-language-mdvd-appended"
+            elif f == 0:    # the marker line, the counter and the timing line of the next language become caption text
+                cs_, pats = list(langs[perm[0]][0]), [re.escape(x) for x in want_t[perm[0]]]
+                for k in perm[1:]:
+                    pats[-1] += " MULTI-LANGUAGE SRT 1 %s --> %s " % (stamp, stamp) + re.escape(want_t[k][0])
+                    pats += [re.escape(x) for x in want_t[k][1:]]
+                    cs_ += list(langs[k][0][1:])
+                if starts_ok(o1[0], cs_) and all(re.fullmatch(pt, x) for pt, x in zip(pats, o1[1])):
+                    kind = "multi-language-srt-text-growth"
+    elif shape == "vtt-layout-split" and o1 and o2:
+        # the caption's cue is repeated (one cue per layout group) and the text is spread over the copies
+        n1 = len(o1[0]) - len(cues) + 1
+        if n1 >= 1 and dedupe(o1[0]) == dedupe(o2[0]) and len(dedupe(o1[0])) == len(cues) \
+                and all(near(t[0], c[0], unit) and near(t[1], c[1], unit) for t, c in zip(dedupe(o1[0]), cues)) \
+                and squeeze("".join(o1[1][:n1])) == squeeze(wt[0]) and o1[1][n1:] == wt[1:] \
+                and (n1 > 1 or o1[1][0] != wt[0]):
+            kind = "vtt-layout-split"
+    elif shape == "linebreak-at-node-edge" and all(o == 1 for o in oks) and not extra and txt[0] is not None:
+        kind = text_kind(chain, texts, txt[0])
+    elif shape == "blank-line-in-text-node" and o1 and o2 and o1 == o2:
+        if 1 <= len(o1[0]) <= len(cues) and near(o1[0][0][0], cues[0][0], unit) and o1[1][0] != wt[0] \
+                and o1[1][0] and wt[0].startswith(o1[1][0]) and o1[1][1:] == wt[1:len(o1[0])]:
+            kind = "blank-line-in-text-node"
+    return True, kind, obs
 
 
-def stream_short(ctx, res):
-    """cues shorter than the chain's resolution - outside the domain of the theorems.  The three shapes are recorded
-    findings (known_findings.d/C08-*.json, matched by kind); any other deviation here is an ordinary violation."""
-    n = ctx.n(45, 600)
+def stream_shapes(ctx, res):
+    """shapes that the real code does not carry through (recorded findings, known_findings.d/C08-*.json, matched by a
+    failure-keyed kind).  Any other deviation here is an ordinary violation (kind <shape>-unexpected)."""
+    n = ctx.n(110, 1500)
     d = res["distribution"]
     for _ in range(n):
-        shape, chain, cues = short_case(ctx.rng)
-        dev, kind, obs = run_short(shape, chain, cues)
+        shape, chain, langs = shape_case(ctx.rng)
+        dev, kind, obs = run_shape(shape, chain, langs)
         res["evaluations"] += 1
-        d["short_cue_cases"] = d.get("short_cue_cases", 0) + 1
+        bump(d, "shape_cases")
+        bump(d, "shape_" + shape)
         if dev:
-            d[kind] = d.get(kind, 0) + 1
+            bump(d, kind)
             res["violations"].append({
-                "kind": kind, "shape": shape, "chain": [FMT[f] for f in chain], "chain_codes": chain, "cues": cues,
-                "what": "chain %s on cues shorter than its resolution %s: %s" % ("->".join(FMT[f] for f in chain), cues, obs),
-                "replay": "short"})
+                "kind": kind, "shape": shape, "chain": [FMT[f] for f in chain], "chain_codes": chain,
+                "input": [[[list(c) for c in cu], tx] for (cu, tx) in langs],
+                "what": "chain %s on %s: %s" % ("->".join(FMT[f] for f in chain),
+                                                [[list(zip(cu, [spec_text(x) for x in tx]))] for cu, tx in langs], obs),
+                "replay": "shape"})
+        else:
+            bump(d, "shape_" + shape + "_preserved")
 
 
 def hop_times(o, li):
@@ -502,14 +846,19 @@ def final_times(trace, li, n):
 
 
 def text_mismatch(trace, li, texts):
-    texts = [spec_lines(sp) for sp in texts]
+    """(hop, caption index or None, observed, written) for the first hop whose texts differ"""
+    want = [spec_text(sp) for sp in texts]
     for k, o in enumerate(trace):
         if isinstance(o, Err):
-            return (k, "an exception")
+            return (k, None, "an exception", want)
         v = o.v.get(LANGS[li])
         got = v[1] if v is not None else []
-        if got != texts:
-            return (k, got)
+        if got != want:
+            if len(got) == len(want):
+                ci = next(i for i in range(len(got)) if got[i] != want[i])
+                rest_ok = all(squeeze(a) == squeeze(b) for a, b in zip(got, want))
+                return (k, ci if rest_ok else None, got[ci], want[ci])
+            return (k, None, got, want)
     return None
 
 
@@ -520,8 +869,7 @@ def floored(o, u):
 
 
 def same(a, b):
-    return (isinstance(a, Ok) and isinstance(b, Ok) and a.v == b.v) or \
-           (isinstance(a, Err) and isinstance(b, Err) and a.code == b.code)
+    return (isinstance(a, Ok) and isinstance(b, Ok) and a.v == b.v) or (isinstance(a, Err) and isinstance(b, Err))
 
 
 def show(o):
@@ -533,11 +881,11 @@ def show(o):
 
 
 def replay(ctx, rec):
-    if rec.get("replay") == "short":
-        dev, kind, obs = run_short(rec["shape"], rec["chain_codes"], [tuple(c) for c in rec["cues"]])
-        return dev, [kind, obs]
     chain = rec["chain_codes"]
     langs = [([tuple(c) for c in cu], tx) for (cu, tx) in rec["input"]]
+    if rec.get("replay") == "shape":
+        dev, kind, obs = run_shape(rec["shape"], chain, langs)
+        return dev, [kind, obs]
     li = rec["lang_index"]
     cs = build(langs)
     t1, cs1 = run_chain(chain, cs)
@@ -545,4 +893,5 @@ def replay(ctx, rec):
     p1, p2 = final_times(t1, li, len(chain)), final_times(t2, li, len(chain))
     ok = oracle1(802, [chain, [list(c) for c in langs[li][0]], p1, p2])
     bad = text_mismatch(t1 + t2, li, langs[li][1])
-    return ok != 1 or bad is not None, [show(p1), show(p2), bad]
+    extra = extra_languages(t1 + t2, len(langs))
+    return ok != 1 or bad is not None or bool(extra), [show(p1), show(p2), bad, extra]
